@@ -27,19 +27,19 @@ structure OpenB (st : PState) (ug : Option Nat) : Prop where
     st.previousSecondDef = .binaryRightToLeft ∨ st.previousSecondDef = .unaryPrefix ∨
     st.previousSecondDef = .startGrouping ∨ st.previousSecondDef = .startSideEffect ∨
     st.previousSecondDef = .whitespace ∨ st.previousSecondDef = .annotation ∨
-    st.previousSecondDef = .optionalBinaryLeftToRight
+    st.previousSecondDef = .optionalBinaryLeftToRight ∨ st.previousSecondDef = .subexpression
 
 theorem OpenB.comp_prefix {st : PState} {ug : Option Nat} (h : OpenB st ug) :
     checkComposition st.previousSecondDef .unaryPrefix false = true := by
-  rcases h.prev with h | h | h | h | h | h | h | h | h <;> rw [h] <;> rfl
+  rcases h.prev with h | h | h | h | h | h | h | h | h | h <;> rw [h] <;> rfl
 
 theorem OpenB.comp_open {st : PState} {ug : Option Nat} (h : OpenB st ug) :
     checkComposition st.previousSecondDef .startGrouping false = true := by
-  rcases h.prev with h | h | h | h | h | h | h | h | h <;> rw [h] <;> rfl
+  rcases h.prev with h | h | h | h | h | h | h | h | h | h <;> rw [h] <;> rfl
 
 theorem OpenB.comp_atom {st : PState} {ug : Option Nat} (h : OpenB st ug) (s : SecDef) (hs : s = .value ∨ s = .identifier) :
     checkComposition st.previousSecondDef s false = true := by
-  rcases h.prev with h | h | h | h | h | h | h | h | h <;> rw [h] <;> rcases hs with rfl | rfl <;> rfl
+  rcases h.prev with h | h | h | h | h | h | h | h | h | h <;> rw [h] <;> rcases hs with rfl | rfl <;> rfl
 
 theorem OpenB.stepP {st : PState} {ug : Option Nat} (h : OpenB st ug) (p : PToken) (hp : isPrefixTok p = true) :
     OpenB (stepP st p) ug := by
